@@ -162,6 +162,9 @@ def _new_coroutines(F, newset):
     return out
 
 
+INLINED_AWAITS = {}
+
+
 def inline_awaits(F, body, coros, depth=0):
     """`helper(args).await` of a new async helper: the coroutine body of the helper is spliced in at the poll, its captured
     variables bound to the operands of the coroutine value, its `return` turned into Poll::Ready(value); its own awaits stay
@@ -188,6 +191,7 @@ def inline_awaits(F, body, coros, depth=0):
     nb['locals'] = list(body['locals'])
     nb['blocks'] = [{'s': list(blk['s']), 't': dict(blk['t'])} for blk in body['blocks']]
     for i, agg in todo:
+        INLINED_AWAITS[agg['def']] = INLINED_AWAITS.get(agg['def'], 0) + 1
         cb = inline_awaits(F, F.bodies[agg['def']], coros - {agg['def']}, depth + 1)
         blk = nb['blocks'][i]
         t = blk['t']
@@ -472,6 +476,7 @@ def normalise(F):
         return []
     alias = {}
     out = {}
+    INLINED_AWAITS.clear()
     coros = _new_coroutines(F, newset)
     # the coroutine bodies of new async helpers first get their own (sync) helpers inlined
     for c_ in sorted(coros):
@@ -492,9 +497,19 @@ def normalise(F):
             c['path'] = a
             c['root'] = a.split('::{')[0]
             out[a] = c
-    # closure bodies of the helpers themselves stay reachable under their own names (agg defs may still point at them)
+    # closure bodies of the helpers themselves stay reachable under their own names (agg defs may still point at them);
+    # the coroutine body of a new async helper is dropped when every place that creates it also awaits it (it has been
+    # spliced in there) - a future that is handed to something else (spawn, timeout) keeps its body as a unit of its own
+    created = {}
+    for p, b in out.items():
+        for blk in b['blocks']:
+            for st in blk['s']:
+                if st.get('k') == '=' and st['rv'].get('k') == 'agg' and st['rv'].get('ak') == 'coroutine' and st['rv'].get('def') in coros:
+                    created[st['rv']['def']] = created.get(st['rv']['def'], 0) + 1
     for p, b in F.bodies.items():
         if p not in out and p not in newset:
+            if p in coros and created.get(p, 0) > 0 and INLINED_AWAITS.get(p, 0) >= created.get(p, 0):
+                continue
             out[p] = b
     F.bodies = out
     F.inlined = sorted(newset)
